@@ -164,13 +164,17 @@ struct XPrint : Engine {
                 for (int i = 0; i < n; i++) { RV e = shape == 0 ? RV::mk(RV::Arr) : shape == 1 ? RV::mk(RV::Obj) : RV::mk(RV::Arr); if (shape == 2) e.arr.push_back(RV::mk(RV::Obj)); if (shape == 3) v.obj.emplace_back("k", e); else v.arr.push_back(e); }
                 emit(v); }
             // deep nesting: indentation grows with depth
-            for (int d : { 5, 20, 60, 130 }) for (int shape = 0; shape < 2; shape++) { if (!pool_take()) continue; RV v = RV::number(1); for (int i = 0; i < d; i++) { RV w = RV::mk(shape ? RV::Obj : RV::Arr); if (shape) w.obj.emplace_back("k", v); else w.arr.push_back(v); v = w; } emit(v); }
+            for (int d : { 5, 20, 60, 130, CJSON_NESTING_LIMIT - 1, CJSON_NESTING_LIMIT }) for (int shape = 0; shape < 2; shape++) { if (!pool_take()) continue; RV v = RV::number(1); for (int i = 0; i < d; i++) { RV w = RV::mk(shape ? RV::Obj : RV::Arr); if (shape) w.obj.emplace_back("k", v); else w.arr.push_back(v); v = w; } emit(v); }
         } else if (stage == "special") {
             std::vector<RV> sp;
             for (double d : { (double)INFINITY, -(double)INFINITY, (double)NAN }) { sp.push_back(RV::number(d)); RV a = RV::mk(RV::Arr); a.arr = { RV::number(1), RV::number(d), RV::string("x") }; sp.push_back(a); RV o = RV::mk(RV::Obj); o.obj.emplace_back("v", RV::number(d)); sp.push_back(o); }
             if (mode == M_PREALLOC) for (const char* r : { "x", "[1,2]", "{\"a\":null}", "", "123456789012345678901234567890" }) { RV raw = RV::mk(RV::Raw); raw.str = r; sp.push_back(raw); RV a = RV::mk(RV::Arr); a.arr = { raw, RV::number(1) }; sp.push_back(a); RV o = RV::mk(RV::Obj); o.obj.emplace_back("r", raw); o.obj.emplace_back("s", RV::string("t")); sp.push_back(o); }
             for (auto& v : sp) { if (!pool_take()) continue; emit(v); }
             for (int k = 0; k < 6; k++) { if (!pool_take()) continue; static Case c; c.kind = 1; c.iv[1] = k; c.len = 0; pool_run(c); }
+        }
+        if (stage == "growth") {
+            // several KiB of small tokens followed by one very large token (growth policy of large buffers)
+            for (int pre : { 0, 300, 1300, 2000, 4090, 5000, 9000 }) for (int bigl : { 3000, 7000, 20000, 70000 }) for (int shape = 0; shape < 2; shape++) { if (!pool_take()) continue; static Case c; c.kind = 2; c.iv[1] = pre; c.iv[2] = bigl; c.iv[3] = shape; c.len = 0; pool_run(c); }
         }
     }
 
@@ -244,7 +248,10 @@ struct XPrint : Engine {
     void run_case(const Case& c, bool vb) override {
         init(); verbose = vb;
         if (c.kind == 1) { run_null_tree((int)c.iv[1]); return; }
-        RV rv; if (!rv_deser(c.str(), rv)) { violation("harness:bad-case", "cannot decode case"); return; }
+        RV rv;
+        if (c.kind == 2) { rv = RV::mk(c.iv[3] ? RV::Obj : RV::Arr); int n = (int)c.iv[1] / 10; for (int i = 0; i < n; i++) { if (c.iv[3]) rv.obj.emplace_back("k" + std::to_string(i), RV::number(i * 3 + 0.5)); else rv.arr.push_back(RV::number(1000000 + i)); } std::string big((size_t)c.iv[2], 'B'); big[big.size() / 2] = '"'; if (c.iv[3]) rv.obj.emplace_back("big", RV::string(big)); else rv.arr.push_back(RV::string(big)); if (c.iv[3]) rv.obj.emplace_back("after", RV::mk(RV::True)); else rv.arr.push_back(RV::mk(RV::Null)); }
+        else
+        if (!rv_deser(c.str(), rv)) { violation("harness:bad-case", "cannot decode case"); return; }
         curdesc = printable(rv_text(rv).substr(0, 300));
         long live0 = ledger_live(); uint64_t err0 = L.errors;
         install_hooks(HK_DEFAULT);
@@ -332,7 +339,7 @@ struct XPrint : Engine {
         if (ledger_live() != live0) V("leak", "allocation balance after the case is " + std::to_string(ledger_live() - live0));
         if (L.errors != err0) V("allocator-misuse", L.first_error);
     }
-    std::string describe(const Case& c) override { if (c.kind == 1) return "special tree #" + std::to_string(c.iv[1]) + " (string without text / member without name)"; RV rv; if (!rv_deser(c.str(), rv)) return "?"; return printable(rv_text(rv).substr(0, 160)); }
+    std::string describe(const Case& c) override { if (c.kind == 2) return "tree with about " + std::to_string(c.iv[1]) + " bytes of small tokens followed by a " + std::to_string(c.iv[2]) + "-byte string"; if (c.kind == 1) return "special tree #" + std::to_string(c.iv[1]) + " (string without text / member without name)"; RV rv; if (!rv_deser(c.str(), rv)) return "?"; return printable(rv_text(rv).substr(0, 160)); }
     void finish(std::map<std::string, std::string>& x) override {
         x["rule"] = jstr("one case = one reference tree, built through the construction API, constant-key API, bulk constructors and the parser; evaluations = trees, transitions = library calls, "
                          "non-trivial = trees that printed; every print entry point x every prebuffer/caller-buffer size x both allocator configurations is executed per tree");
